@@ -48,6 +48,15 @@ pub fn gen(ctx: &mut Ctx) -> Vec<String> {
         let t = int_tuple(&(0..ar).map(|_| if ctx.chance(1, 5) { ctx.next() as i64 } else { ctx.range(-3, 40) }).collect::<Vec<_>>());
         out.push(format!("c03.hash {}", tuple_to_wire(&t)));
     }
+    // ranking aggregates over a single atom (IQL text; Spec only, see notes/C03.md)
+    for _ in 0..ctx.budget(300, 3000) {
+        let (shape, text, _) = gen_ranking(ctx);
+        ctx.count(&format!("shape_rank_{shape}"));
+        let edb = gen_ranking_edb(ctx);
+        let w = *ctx.pick(&[2usize, 3, 4, 8]);
+        let sw = if ctx.chance(3, 4) { "00000" } else { "11111" };
+        out.push(format!("c03.rank {sw}:{w}:0 {} | {}", hex(text.as_bytes()), items_wire(&edb, &[])));
+    }
     let n = ctx.budget(600, 6000);
     for _ in 0..n {
         let (shape, rules) = gen_parsafe(ctx);
@@ -67,6 +76,14 @@ pub fn gen(ctx: &mut Ctx) -> Vec<String> {
 pub fn exec(req: &str) -> String {
     if let Some(t) = req.strip_prefix("c03.hash ") {
         return match tuple_of_wire(t) { Some(t) => { let mut h = std::collections::hash_map::DefaultHasher::new(); t.hash(&mut h); h.finish().to_string() } None => "bad-request".into() };
+    }
+    if let Some(rest) = req.strip_prefix("c03.rank ") {
+        let (head, items) = rest.split_once(" | ").unwrap_or((rest, ""));
+        let hp: Vec<&str> = head.split(' ').collect(); if hp.len() != 2 { return "bad-request".into(); }
+        let (cfg, text, edb) = match (cfg_of_wire(hp[0]), unhex(hp[1]).and_then(|b| String::from_utf8(b).ok()), parse_items(items)) {
+            (Some(c), Some(t), Some((e, _))) => (c, t, e), _ => return "bad-request".into() };
+        let mut c1 = cfg.clone(); c1.workers = 1;
+        return format!("{} / {}", run_engine_text(&c1, &edb, &text), run_engine_text(&cfg, &edb, &text));
     }
     match split_req(req) {
         Some((_, cfg, edb, rules)) => { let mut c1 = cfg.clone(); c1.workers = 1; format!("{} / {}", run_engine(&c1, &edb, &rules), run_engine(&cfg, &edb, &rules)) }
